@@ -206,6 +206,13 @@ def _judge(presented, res):
     return None, None, ne
 
 
+def _returned(res):
+    try:
+        return {"pts": np.asarray(res[0]), "edges": np.asarray(res[1]), "argsort": np.asarray(res[3])}
+    except Exception:
+        return repr(res)[:300]
+
+
 def _run_one(out: Outcome, segs, subset, n, mode, per_cat):
     from porepy.geometry import intersections
 
@@ -230,8 +237,7 @@ def _run_one(out: Outcome, segs, subset, n, mode, per_cat):
                 out.violate(
                     "split_intersecting_segments_2d: " + err, detail=detail,
                     p=p_in, e=e_in, segments=[[list(a), list(b)] for a, b in presented],
-                    returned=None if isinstance(detail, str) and err.startswith("raised") else
-                    {"pts": np.asarray(res[0]), "edges": np.asarray(res[1]), "argsort": np.asarray(res[3])},
+                    returned=_returned(None if err.startswith("raised") else res),
                 )
             out.ev("VIOLATION/" + cls_base, key)
         else:
